@@ -10,7 +10,19 @@ def _thr(name):
     return f
 
 
+def _res(tier):
+    from . import chk_resolver
+    return chk_resolver.check_C19(tier)
+
+
+def _attr(tier):
+    from . import chk_attr
+    return chk_attr.check_C18(tier)
+
+
 CHECKS = {
+    "C18": _attr,
+    "C19": _res,
     "C09": _thr("check_C09"),
     "C10": _thr("check_C10"),
     "C13": _thr("check_C13"),
